@@ -5,8 +5,11 @@ package main
 import (
 	"fmt"
 	"strings"
+	"time"
 
 	"github.com/biscuit-auth/biscuit-go/v2"
+	"github.com/biscuit-auth/biscuit-go/v2/datalog"
+	"github.com/biscuit-auth/biscuit-go/v2/pb"
 )
 
 func init() {
@@ -189,7 +192,7 @@ func (g *scenGen) adversarialBlock(a AuthCase) Block {
 }
 
 func runC04(c *Ctx) {
-	c.Rule = "random authorization scenarios over a small vocabulary (3-6 predicates of fixed arity, 2-6 constants, 0-3 later blocks, 0-2 checks per scope with 1-3 queries, 0-4 ordered policies of both kinds, expression-free / error-free / erroring expressions); the model's verdict is the expectation. Non-trivial = the verdict is one of ok/denied/nomatch/checks[...] (not a run error) and the case has at least one check or policy; distinct = distinct canonical case encodings."
+	c.Rule = "random authorization scenarios over a small vocabulary (3-6 predicates of fixed arity, 2-6 constants, 0-3 later blocks, 0-2 checks per scope with 1-3 queries, 0-4 ordered policies of both kinds, expression-free / error-free / erroring expressions; one Authorize, or a Query before the first Authorize, or content added between two Queries / Authorizes on the same authorizer); the model's verdict is the expectation. Non-trivial = the verdict is one of ok/denied/nomatch/checks[...] (not a run error) and the case has at least one check or policy; distinct = distinct canonical case encodings."
 	r := NewRng(c.Seed)
 	n := 5000
 	if c.Thorough {
@@ -204,12 +207,40 @@ func runC04(c *Ctx) {
 		if r.Chance(1, 10) {
 			a.MaxIter = 1 + r.Intn(3)
 		}
-		a = withOps(a, AuthOp{K: "authorize"})
-		if r.Chance(1, 2) {
-			a = withOps(a, AuthOp{K: "query", Rule: g.rule()})
+		switch r.Intn(6) {
+		case 0: // a query before the first Authorize
+			a = withOps(a, AuthOp{K: "query", Rule: g.rule()}, AuthOp{K: "authorize"}, AuthOp{K: "query", Rule: g.rule()})
+			c.Count("shape:query-first")
+		case 1: // content added between two evaluations on the same authorizer
+			q := g.rule()
+			a = withOps(a, AuthOp{K: "query", Rule: q})
+			for k, m := 0, 1+r.Intn(3); k < m; k++ {
+				if r.Chance(2, 3) {
+					a = withOps(a, AuthOp{K: "addfact", Fact: g.fact()})
+				} else {
+					a = withOps(a, AuthOp{K: "addrule", Rule: g.rule()})
+				}
+			}
+			a = withOps(a, AuthOp{K: "query", Rule: q}, AuthOp{K: "authorize"}, AuthOp{K: "query", Rule: q})
+			c.Count("shape:query-add-query")
+		case 2:
+			q := g.rule()
+			a = withOps(a, AuthOp{K: "authorize"}, AuthOp{K: "addfact", Fact: g.fact()}, AuthOp{K: "addrule", Rule: g.rule()}, AuthOp{K: "query", Rule: q}, AuthOp{K: "authorize"})
+			c.Count("shape:authorize-add-query")
+		default:
+			a = withOps(a, AuthOp{K: "authorize"})
+			if r.Chance(1, 2) {
+				a = withOps(a, AuthOp{K: "query", Rule: g.rule()})
+			}
 		}
 		res, sx := emitAuth(c, "auth", a)
-		v := strings.SplitN(res, " ", 2)[0]
+		v := ""
+		for _, w := range strings.Split(res, " ") { // the first Authorize outcome of the history
+			if !strings.HasPrefix(w, "facts:") && !strings.HasPrefix(w, "qerr:") && !strings.HasPrefix(w, "(") && !strings.HasSuffix(w, ")") {
+				v = w
+				break
+			}
+		}
 		c.Count("verdict:" + verdictClass(v))
 		c.Count(fmt.Sprintf("blocks:%d", len(a.Tokens[0])-1))
 		np := 0
@@ -232,12 +263,13 @@ func runC04(c *Ctx) {
 }
 
 func runC02(c *Ctx) {
-	c.Rule = "pairs (T, T+B) under the same authorizer content: T has 0-2 earlier blocks; B is adversarial (facts grounding the bodies of the authorizer's/authority's/policies' queries, rules re-deriving them from authority facts, copies of authority facts, erroring expressions, checks). Witness search: Authorize(T+B)=nil and Authorize(T)!=nil. Non-trivial = B contains at least one fact or rule whose predicate name occurs in a check or policy query; distinct = distinct canonical (T,B,A)."
+	c.Rule = "(undeclared) tokens whose authority block refers to a symbol it does not declare, alone and extended at byte level by a block that declares one; pairs (T, T+B) under the same authorizer content: T has 0-2 earlier blocks; B is adversarial (facts grounding the bodies of the authorizer's/authority's/policies' queries, rules re-deriving them from authority facts, copies of authority facts, erroring expressions, checks). Witness search: Authorize(T+B)=nil and Authorize(T)!=nil. Non-trivial = B contains at least one fact or rule whose predicate name occurs in a check or policy query; distinct = distinct canonical (T,B,A)."
 	r := NewRng(c.Seed)
 	n := 2500
 	if c.Thorough {
 		n = 40000
 	}
+	undeclaredSymbols(c)
 	for i := 0; i < n; i++ {
 		g := newScenGen(r, r.Intn(3))
 		a := baseCase(g, r.Intn(3))
@@ -803,3 +835,88 @@ func runC18(c *Ctx) {
 		}
 	}
 }
+
+
+// undeclaredSymbols: tokens (signed by the root key, e.g. issued by a builder that was used
+// twice) whose authority block refers to a symbol index it does not declare. Whatever the
+// library makes of such a token, a holder must not be able to give the missing symbol a
+// meaning by appending a block that declares one: T and T+B are assembled at byte level
+// (the holder controls the bytes and knows the next secret) and authorized with the same
+// authorizer content.
+func undeclaredSymbols(c *Ctx) {
+	pub, priv := rootKeys()
+	three := uint32(3)
+	str := func(s string) Term { return S(s) }
+	sym := func(name string) uint64 { // index of a default symbol
+		t := &datalog.SymbolTable{}
+		return uint64(t.Sym(name).(datalog.String))
+	}
+	type variant struct {
+		name     string
+		declared []string     // what the authority block declares
+		facts    []*pb.FactV2 // what it carries (index 1024+len(declared) is undeclared)
+		checks   []*pb.CheckV2
+		content  []AuthOp // authorizer content
+	}
+	authorize := func(data []byte, content []AuthOp) string {
+		tok, err := biscuit.Unmarshal(data)
+		if err != nil {
+			return "rejected"
+		}
+		az, err := tok.AuthorizerFor(biscuit.WithSingularRootPublicKey(pub), biscuit.WithWorldOptions(datalog.WithMaxDuration(20*time.Second)))
+		if err != nil {
+			return "rejected"
+		}
+		for _, op := range content {
+			switch op.K {
+			case "addfact":
+				az.AddFact(biscuit.Fact{Predicate: op.Fact.ToBiscuit()})
+			case "addpolicy":
+				az.AddPolicy(op.Policy.ToBiscuit())
+			}
+		}
+		return authErrClass(az.Authorize())
+	}
+	allow := func(q Rule) AuthOp { return AuthOp{K: "addpolicy", Policy: Policy{Allow: true, Queries: []Rule{q}}} }
+	for k := 0; k <= 3; k++ {
+		var declared []string
+		for j := 0; j < k; j++ {
+			declared = append(declared, fmt.Sprintf("known%d", j))
+		}
+		dangling := uint64(1024 + k)
+		vs := []variant{
+			{"string-term", declared, []*pb.FactV2{pbFact(sym("role"), pbStr(dangling))}, nil,
+				[]AuthOp{allow(Rule{Head: Pred{Name: "query"}, Body: []Pred{{Name: "role", Terms: []Term{str("superuser")}}}})}},
+			{"predicate-name", declared, []*pb.FactV2{pbFact(dangling, pbInt(1))}, nil,
+				[]AuthOp{allow(Rule{Head: Pred{Name: "query"}, Body: []Pred{{Name: "superuser", Terms: []Term{I(1)}}}})}},
+			{"check", declared, nil, []*pb.CheckV2{{Queries: []*pb.RuleV2{{Head: &pb.PredicateV2{Name: u64p(sym("query"))},
+				Body: []*pb.PredicateV2{{Name: u64p(sym("admin")), Terms: []*pb.TermV2{pbStr(dangling)}}}}}}},
+				[]AuthOp{{K: "addfact", Fact: Pred{Name: "admin", Terms: []Term{str("superuser")}}},
+					allow(Rule{Head: Pred{Name: "query"}, Exprs: []Expr{{{K: 'v', T: O(true)}}}})}},
+		}
+		for _, v := range vs {
+			ctx := ""
+			auth := mustMarshal(&pb.Block{Symbols: v.declared, Context: &ctx, Version: &three, FactsV2: v.facts, ChecksV2: v.checks})
+			// the appended block declares "superuser" (it lands on the undeclared index) and is otherwise harmless
+			blk := mustMarshal(&pb.Block{Symbols: []string{"superuser"}, Context: &ctx, Version: &three,
+				FactsV2: []*pb.FactV2{pbFact(sym("owner"), pbStr(dangling))}})
+			envT, _ := forgeEnvelope(priv, [][]byte{auth}, NewRng(uint64(90+k)), nil, false)
+			envTB, _ := forgeEnvelope(priv, [][]byte{auth, blk}, NewRng(uint64(90+k)), nil, false)
+			dT, dTB := mustMarshal(envT), mustMarshal(envTB)
+			resT, resTB := authorize(dT, v.content), authorize(dTB, v.content)
+			c.Eval()
+			c.Count("undeclared:" + v.name + ":" + resT + "->" + resTB)
+			c.NonTrivial(hx(dTB))
+			if resT != "ok" && resTB == "ok" {
+				c.Violate("C02/undeclared-symbol:"+v.name, fmt.Sprintf("a token whose authority block refers to an undeclared symbol is %s, and accepted once a holder appends a block declaring a symbol (the authority block's %s takes the appended block's meaning)", resT, v.name),
+					map[string]interface{}{"T": hx(dT), "TB": hx(dTB), "declared": k})
+			}
+			// the independent decoder's view of T: each block must be resolvable from its own and earlier tables
+			sx := "(case (bytes " + hx(dT) + ") (expect " + hxs("reject") + "))"
+			res := execCase("WIRE", sx)
+			c.Case("WIRE", c.NewID("undeclared"), sx, res)
+		}
+	}
+}
+
+func u64p(v uint64) *uint64 { return &v }
